@@ -60,7 +60,10 @@ template <class T> static int enc_ba(const unsigned char *key, size_t klen, cons
     if (!obj.set_key(key, klen)) return -1000;
     obj.set_nonce(nonce, 16);
     ascon::byte_array bm = ascon::bytes_from_data(m, mlen), bad = ascon::bytes_from_data(ad, adlen), bc(presize, 0xCC);
+    /* the output array may arrive as a value copy of the associated data or of the message (shared storage in ASCON_NO_STL builds): the inputs must come out unchanged (-5000) */
+    if (presize == 5) bc = bad; else if (presize == mlen + 16 + 23) bc = bm;
     try { if (form == 1 && !adlen) obj.encrypt(bc, bm); else obj.encrypt(bc, bm, bad); } catch (...) { return -3000; }
+    if (bm.size() != mlen || (mlen && memcmp(bm.data(), m, mlen)) || bad.size() != adlen || (adlen && memcmp(bad.data(), ad, adlen))) return -5000;
     size_t n = bc.size(), k = n < mlen + 16 ? n : mlen + 16; if (k) memcpy(c, bc.data(), k);
     return (int)n;
 }
